@@ -196,6 +196,8 @@ let () =
           else L.map (fun (_, ssps) -> { e_iv = []; e_ssps = ssps; e_data = [] }) descs in
         let model =
           match saiz_of saiz_empty encs, senc_of senc_empty encs with
+          | Ok z, Ok s when (match senc_calc_size s with Ok _ -> false | _ -> true) ->
+            ignore z; res_name (senc_calc_size s)   (* the saio loop of EncryptFragment calls senc.Size() *)
           | Ok z, Ok s ->
             (match senc_encode s, saiz_encode z with
              | Ok sb, Ok zb ->
